@@ -33,6 +33,38 @@ def fresh_like(path, name, v):
     raise Unsupported(f"cannot havoc loop variable {name} of type {type(v).__name__}")
 
 
+_MUTATORS = {"append", "extend", "insert", "pop", "remove", "clear", "update", "add", "sort", "reverse", "setdefault", "discard"}
+
+
+def _modified_names(st):
+    """names of locals that the loop statement `st` (its body, and for a for-loop its target) may assign or mutate"""
+    import ast
+    out = []
+
+    def add(n):
+        if n not in out:
+            out.append(n)
+
+    def base(e):
+        while isinstance(e, (ast.Subscript, ast.Attribute)):
+            e = e.value
+        return e.id if isinstance(e, ast.Name) else None
+    body = getattr(st, "body", [])
+    for top in body:
+        for n in ast.walk(top):
+            if isinstance(n, ast.Name) and isinstance(n.ctx, (ast.Store, ast.Del)):
+                add(n.id)
+            elif isinstance(n, (ast.Subscript, ast.Attribute)) and isinstance(n.ctx, (ast.Store, ast.Del)):
+                b = base(n)
+                if b:
+                    add(b)
+            elif isinstance(n, ast.Call) and isinstance(n.func, ast.Attribute) and n.func.attr in _MUTATORS:
+                b = base(n.func.value)
+                if b:
+                    add(b)
+    return out
+
+
 class Z3Loop:
     """vars: names of the local variables the loop modifies.
     inv(env, ghost) -> list of (label, z3 BoolRef);  ghost_init(env) -> dict;  ghost_havoc(path) -> dict;
@@ -40,11 +72,31 @@ class Z3Loop:
     the body branch (instances of spec recurrences / Euclid step);  measure(env) -> z3 Int term."""
 
     def __init__(self, name, vars, inv, ghost_init=None, ghost_havoc=None, ghost_step=None, lemmas=None,
-                 measure=None, exit_lemmas=None, for_target=None):
-        self.name, self.vars, self.inv = name, list(vars), inv
-        self.ghost_init, self.ghost_havoc, self.ghost_step = ghost_init, ghost_havoc, ghost_step
-        self.lemmas, self.measure, self.exit_lemmas = lemmas, measure, exit_lemmas
+                 measure=None, exit_lemmas=None, for_target=None, for_lo=None):
+        self.name, self.vars = name, list(vars)
+        self._inv, self._ghost_step, self._lemmas, self._measure, self._exit_lemmas = inv, ghost_step, lemmas, measure, exit_lemmas
+        self.ghost_init, self.ghost_havoc = ghost_init, ghost_havoc
         self.for_target = for_target
+        self.for_lo = for_lo
+        self._index_view = None
+        self.inv = lambda env, gh: self._inv(self._view(env), gh)
+        self.ghost_step = (lambda b, gh, a: self._ghost_step(self._view(b), gh, self._view(a))) if ghost_step else None
+        self.lemmas = (lambda env, gh: self._lemmas(self._view(env), gh)) if lemmas else None
+        self.measure = (lambda env: self._measure(self._view(env))) if measure else None
+        self.exit_lemmas = (lambda env, gh: self._exit_lemmas(self._view(env), gh)) if exit_lemmas else None
+
+    def _view(self, env):
+        if self._index_view is None:
+            return env
+        tgt, lo, lo0 = self._index_view
+        if tgt not in env:
+            return env
+        lo_t = zt(lo) if not isinstance(lo, int) else z3.IntVal(lo)
+        if z3.is_int_value(lo_t) and lo_t.as_long() == lo0:
+            return env
+        v = dict(env)
+        v[tgt] = SInt(z3.simplify(zt(env[tgt]) - lo_t + lo0))
+        return v
 
     def _prove_inv(self, path, env, ghost, stage):
         for label, t in self.inv(env, ghost):
@@ -60,11 +112,12 @@ class Z3Loop:
             env = fr.env
             ghost = self.ghost_init(env) if self.ghost_init else {}
             self._prove_inv(path, env, ghost, "entry")
-            for v in self.vars:
+            # the havoc set is the declared one plus every local the loop body assigns or mutates in the source under check (a
+            # contract that forgot one would otherwise reason with its entry value); a name that is not bound at entry is
+            # written by the body before it is read (or the read is reported as an unbound name), so it needs no havoc
+            for v in list(self.vars) + [x for x in _modified_names(st) if x not in self.vars]:
                 if v in env:
                     env[v] = fresh_like(path, v, env[v])
-                else:
-                    raise Unsupported(f"loop variable {v} not bound at loop entry")
             ghost = self.ghost_havoc(path) if self.ghost_havoc else {}
             for label, t in self.inv(env, ghost):
                 path.assume(t, f"invariant.{label}")
@@ -109,6 +162,10 @@ def _run_for(self, interp, st, fr):
         raise Unsupported("loop contract on a for-loop that is not `for name in range(lo, hi)`")
     tgt = st.target.id
     lo, hi = it.lo, it.hi
+    if self.for_lo is not None:
+        # the contract speaks about the index as the unchanged tree counts it (from self.for_lo): show the invariant, the
+        # lemma instances and the measure the value  target - lo + for_lo  (identical when the range still starts there)
+        self._index_view = (tgt, lo, self.for_lo)
     fr.env[tgt] = lo if isinstance(lo, SInt) else SInt(z3.IntVal(lo)) if isinstance(lo, int) else lo
     if tgt not in self.vars:
         self.vars.append(tgt)
